@@ -67,7 +67,7 @@ mask_out_top_64bits:
         dq 0xffffffff_ffffffff, 0
 
 byte64_len_to_mask_table:
-        dq      0xffffffffffffffff, 0x0000000000000001
+        dq      0x0000000000000000, 0x0000000000000001
         dq      0x0000000000000003, 0x0000000000000007
         dq      0x000000000000000f, 0x000000000000001f
         dq      0x000000000000003f, 0x000000000000007f
